@@ -82,6 +82,59 @@ theorem core_k8s {s o : Svc} (h : s.core = o.core) : s.k8s = o.k8s := by
 @[simp] theorem core_with_ports (s : Svc) (p : List Port) : ({ s with ports := p } : Svc).core = s.core := rfl
 @[simp] theorem core_with_aliases (s : Svc) (a : List (String × String)) : ({ s with aliases := a } : Svc).core = s.core := rfl
 
+theorem foldl_inv {β α : Type} (g : β → α → β) (P : β → Prop) (l : List α) (b : β) (hb : P b)
+    (hstep : ∀ b a, a ∈ l → P b → P (g b a)) : P (l.foldl g b) := by
+  induction l generalizing b with
+  | nil => exact hb
+  | cons a t ih =>
+    rw [List.foldl_cons]
+    exact ih (g b a) (hstep b a List.mem_cons_self hb) (fun b' a' ha' => hstep b' a' (List.mem_cons_of_mem _ ha'))
+
+/-! ### alias trimming -/
+
+/-- **spec**: the alias (namespace, hostname) stands for a service that is exported to `ns` -/
+def AliasVisible (m : Mesh) (svcs : List Svc) (ns : String) (a : String × String) : Prop :=
+  ∃ t, lookupHN svcs a.2 a.1 = some t ∧ isServiceVisible m t ns = true
+
+theorem trim_core (g : Bool) (m : Mesh) (svcs : List Svc) (ns : String) (s : Svc) :
+    (trimHiddenAlias g m svcs ns s).core = s.core ∧ (trimHiddenAlias g m svcs ns s).ports = s.ports := by
+  simp only [trimHiddenAlias]
+  split
+  · exact ⟨rfl, rfl⟩
+  · split <;> exact ⟨rfl, rfl⟩
+
+theorem trim_aliases_sub (g : Bool) (m : Mesh) (svcs : List Svc) (ns : String) (s : Svc) :
+    ∀ a ∈ (trimHiddenAlias g m svcs ns s).aliases, a ∈ s.aliases := by
+  intro a ha
+  simp only [trimHiddenAlias] at ha
+  split at ha
+  · exact ha
+  · split at ha
+    · exact ha
+    · exact (List.mem_filter.mp ha).1
+
+theorem trim_aliases_visible (m : Mesh) (svcs : List Svc) (ns : String) (s : Svc) :
+    ∀ a ∈ (trimHiddenAlias true m svcs ns s).aliases, AliasVisible m svcs ns a := by
+  have key : ∀ a, aliasKept m svcs ns a = true → AliasVisible m svcs ns a := by
+    intro a ha
+    unfold aliasKept at ha
+    cases hl : lookupHN svcs a.2 a.1 with
+    | none => simp [hl] at ha
+    | some t => simp only [hl] at ha; exact ⟨t, hl, ha⟩
+  intro a ha
+  simp only [trimHiddenAlias, Bool.not_true, Bool.false_eq_true, if_false] at ha
+  split at ha
+  · rename_i hlen
+    -- nothing was dropped: every alias passes the test
+    cases hk : aliasKept m svcs ns a with
+    | true => exact key a hk
+    | false =>
+      exfalso
+      have hlt := (List.length_filter_lt_length_iff_exists (p := aliasKept m svcs ns)).mpr ⟨a, ha, by simp [hk]⟩
+      have hlen' : (s.aliases.filter (aliasKept m svcs ns)).length = s.aliases.length := by simpa using hlen
+      omega
+  · exact key a (List.mem_filter.mp ha).2
+
 /-! ### host classification -/
 
 theorem hcFor_all {ps : List PHost} {k : String} {hc : HostClass} (h : hcFor ps k = some hc) (x : String) :
@@ -247,7 +300,7 @@ theorem matchingAlias_some {hc : HostClass} {o : Option Svc} {s : Svc} (h : matc
 
 /-- what one candidate turns into in the first loop of `selectServices` -/
 theorem importOne_some {ps : List PHost} {mp : Option Nat} {c s : Svc} (h : importOne ps mp c = some s) :
-    s.core = c.core ∧ PortsSub s c ∧ HostImports ps c.ns c.hostname := by
+    s.core = c.core ∧ PortsSub s c ∧ HostImports ps c.ns c.hostname ∧ (∀ a ∈ s.aliases, a ∈ c.aliases) := by
   simp only [importOne] at h
   split at h
   · cases h
@@ -262,16 +315,17 @@ theorem importOne_some {ps : List PHost} {mp : Option Nat} {c s : Svc} (h : impo
     -- which of the two lookups produced the service
     have key : ∀ k, (k = c.ns ∨ k = "*") → ∀ hc, hcFor ps k = some hc →
         matchingAliasService hc (matchingService hc c mp) = some s →
-        s.core = c.core ∧ PortsSub s c ∧ HostImports ps c.ns c.hostname := by
+        s.core = c.core ∧ PortsSub s c ∧ HostImports ps c.ns c.hostname ∧ (∀ a ∈ s.aliases, a ∈ c.aliases) := by
       intro k hk hc hh hm
-      obtain ⟨x, hx, h1, h2, _⟩ := matchingAlias_some hm
-      obtain ⟨hmt, h3, h4, _⟩ := matchingService_some hx
+      obtain ⟨x, hx, h1, h2, hal⟩ := matchingAlias_some hm
+      obtain ⟨hmt, h3, h4, hal2⟩ := matchingService_some hx
       obtain ⟨p, hp, hpx, hpk, hps⟩ := (matchesFor_iff ps k c.hostname).mp ⟨hc, hh, hmt⟩
-      refine ⟨h1.trans h3, ?_, ⟨p, hp, hpx, ?_, hps⟩, hnoex⟩
+      refine ⟨h1.trans h3, ?_, ⟨⟨p, hp, hpx, ?_, hps⟩, hnoex⟩, ?_⟩
       · intro q hq; rw [h2] at hq; exact h4 q hq
       · rcases hk with hk | hk
         · exact Or.inl (hpk.trans hk)
         · exact Or.inr (hpk.trans hk)
+      · intro a ha; rw [← hal2]; exact hal a ha
     cases hns : hcFor ps c.ns with
     | none =>
       simp only [hns] at h
@@ -340,40 +394,40 @@ theorem mem_replaceHost {acc : List Svc} {s x : Svc} (h : x ∈ replaceHost acc 
 /-- a member of the list after `appendSidecarServices` is (a port-merged copy of) an old member,
     or the appended service. -/
 theorem mem_appendSvc {acc : List Svc} {s x : Svc} (h : x ∈ appendSvc acc s) :
-    (∃ y ∈ acc, x.core = y.core) ∨ x = s := by
+    (∃ y ∈ acc, x.core = y.core ∧ x.aliases = y.aliases) ∨ x = s := by
   unfold appendSvc at h
   cases hf : acc.find? (·.hostname == s.hostname) with
   | none => simp only [hf] at h; rcases List.mem_append.mp h with h | h
-            · exact Or.inl ⟨x, h, rfl⟩
+            · exact Or.inl ⟨x, h, rfl, rfl⟩
             · simp at h; exact Or.inr h
   | some ex =>
     have hex := List.mem_of_find?_eq_some hf
     simp only [hf] at h
     split at h
-    · exact Or.inl ⟨x, h, rfl⟩
+    · exact Or.inl ⟨x, h, rfl, rfl⟩
     · split at h
       · rcases mem_replaceHost h with h | h
-        · exact Or.inl ⟨x, h, rfl⟩
+        · exact Or.inl ⟨x, h, rfl, rfl⟩
         · exact Or.inr h
       · split at h
-        · exact Or.inl ⟨x, h, rfl⟩
+        · exact Or.inl ⟨x, h, rfl, rfl⟩
         · split at h
-          · exact Or.inl ⟨x, h, rfl⟩
+          · exact Or.inl ⟨x, h, rfl, rfl⟩
           · rcases mem_replaceHost h with h | h
-            · exact Or.inl ⟨x, h, rfl⟩
-            · exact Or.inl ⟨ex, hex, by rw [h]; rfl⟩
+            · exact Or.inl ⟨x, h, rfl, rfl⟩
+            · exact Or.inl ⟨ex, hex, by rw [h]; rfl, by rw [h]⟩
 
 theorem mem_foldl_appendSvc {l acc : List Svc} {x : Svc} (h : x ∈ l.foldl appendSvc acc) :
-    (∃ y ∈ acc, x.core = y.core) ∨ (∃ y ∈ l, x.core = y.core) := by
+    (∃ y ∈ acc, x.core = y.core ∧ x.aliases = y.aliases) ∨ (∃ y ∈ l, x.core = y.core ∧ x.aliases = y.aliases) := by
   induction l generalizing acc with
-  | nil => exact Or.inl ⟨x, h, rfl⟩
+  | nil => exact Or.inl ⟨x, h, rfl, rfl⟩
   | cons a t ih =>
     rw [List.foldl_cons] at h
-    rcases ih h with ⟨y, hy, hxy⟩ | ⟨y, hy, hxy⟩
-    · rcases mem_appendSvc hy with ⟨z, hz, hyz⟩ | hya
-      · exact Or.inl ⟨z, hz, hxy.trans hyz⟩
-      · exact Or.inr ⟨a, List.mem_cons_self, hya ▸ hxy⟩
-    · exact Or.inr ⟨y, List.mem_cons_of_mem _ hy, hxy⟩
+    rcases ih h with ⟨y, hy, hxy, hal⟩ | ⟨y, hy, hxy, hal⟩
+    · rcases mem_appendSvc hy with ⟨z, hz, hyz, hal2⟩ | hya
+      · exact Or.inl ⟨z, hz, hxy.trans hyz, hal.trans hal2⟩
+      · exact Or.inr ⟨a, List.mem_cons_self, hya ▸ hxy, hya ▸ hal⟩
+    · exact Or.inr ⟨y, List.mem_cons_of_mem _ hy, hxy, hal⟩
 
 /-- hostnames are never lost by `appendSidecarServices`, and the appended hostname is present -/
 theorem hostname_appendSvc (acc : List Svc) (s : Svc) :
@@ -764,7 +818,7 @@ theorem hostsLE_foldl {α : Type} (g : List Svc → α → List Svc) (hg : ∀ a
 theorem hostsLE_addVSDest (f : Flags) (m : Mesh) (svcs : List Svc) (cfgNs : String) (mp : Option Nat)
     (acc : List Svc) (d : String × List Nat) : HostsLE acc (addVSDest f m svcs cfgNs mp acc d) := by
   unfold addVSDest
-  cases resolveDest f m svcs cfgNs d.1 with
+  cases (resolveDest f m svcs cfgNs d.1).map (trimHiddenAlias f.aliasGuard m svcs cfgNs) with
   | none => exact HostsLE.refl _
   | some s =>
     simp only
